@@ -464,3 +464,216 @@ def c02_attribution(case, impl_case):
         if not near(got, want, max(abs(vals[t]), abs(vals[t - 1]))):
             fails.append("date %d: value moved by %r, attribution gives %r" % (t, got, want))
     return fails
+
+
+# ---------------------------------------------------------------- C14 / C15 / C06 on the per-run temp traces
+def flat_algos(stack):
+    out = []
+    for a in stack:
+        if a[0] == "stack":
+            out += flat_algos(a[1])
+        elif a[0] == "always":
+            out += flat_algos([a[2]])
+        else:
+            out.append(a)
+    return out
+
+
+SELECTORS = ("selectall", "selectthese", "hasdata", "selectn", "selectwhere", "selectregex", "selecttypes", "selectactive")
+
+
+def node_traces(n):
+    """[(row, result, selected ids | None, [(id, weight)] | None, {id: stat} | None)]"""
+    out = []
+    j = 0
+    while "trace.%d.res" % j in n.f:
+        now, res = n.f["trace.%d.res" % j]
+        sel = [int(x) for x in n.f["trace.%d.selected" % j]] if "trace.%d.selected" % j in n.f else None
+        w = None
+        if "trace.%d.weights" % j in n.f:
+            t = n.f["trace.%d.weights" % j]
+            w = [(int(t[i]), tok_val(t[i + 1])) for i in range(0, len(t), 2)]
+        st = None
+        if "trace.%d.stat" % j in n.f:
+            t = n.f["trace.%d.stat" % j]
+            st = {int(t[i]): tok_val(t[i + 1]) for i in range(0, len(t), 2)}
+        out.append((None if now == "-" else int(now), res == "T", sel, w, st))
+        j += 1
+    return out
+
+
+def price_at(case, nodes, path, kid, row):
+    """current price of child id [kid] of the strategy at [path] on [row]: data column or the child strategy's index"""
+    sub = nodes.get("%s.%d" % (path, kid))
+    if sub is not None and sub.kind == "G":
+        return sub.vals("hg_prices")[row]
+    for k, col in case["prices"]:
+        if k == kid:
+            if row == 0:
+                return float("nan")
+            x = col[row - 1]
+            return float("nan") if x == "nan" else float.fromhex(x)
+    return None
+
+
+def c14_selection(case, impl_case):
+    fails = []
+    state = impl_case["steps"][-1]["state"]
+    root, nodes, _ = build_tree(state)
+    if root is None:
+        return fails
+    specs = spec_index(case["tree"])
+    for n in walk(root):
+        sp = specs.get(n.path)
+        if n.kind != "G" or sp is None or len(sp) < 5 or "~" in n.path:
+            continue
+        fl = flat_algos(sp[4])
+        sels = [a for a in fl if a[0] in SELECTORS]
+        if not sels or any(a[0] in ("setstat", "not", "or") for a in fl):
+            continue
+        default = all(not (a[0] in ("selectall",) and (a[1] or a[2])) and
+                      not (a[0] in ("selectthese", "selectwhere") and (a[2] or a[3])) and
+                      not (a[0] == "hasdata" and (a[4] or a[5])) for a in sels) and \
+            any(a[0] in ("selectall", "selectthese", "selectwhere", "hasdata") for a in sels)
+        declared = [k[1] for k in sp[3]]
+        universe = set(declared) if declared else {k for k, _ in case["prices"]}
+        for row, res, sel, w, st in node_traces(n):
+            if row is None or sel is None:
+                continue
+            if len(set(sel)) != len(sel):
+                fails.append("%s row %d: duplicates in selected %s" % (n.path, row, sel))
+            for k in sel:
+                if k not in universe:
+                    fails.append("%s row %d: selected %d is outside the strategy's universe %s" % (n.path, row, k, sorted(universe)))
+                    break
+                if default:
+                    p = price_at(case, nodes, n.path, k, row)
+                    if p is None or p != p or p <= 0:
+                        fails.append("%s row %d: selected %d although its current price is %r" % (n.path, row, k, p))
+                        break
+            last = sels[-1]
+            if last[0] == "selectn" and st is not None and not last[4]:
+                cand = {k: v for k, v in st.items() if not isinstance(v, str)}
+                chosen = [k for k in sel if k in cand]
+                rest = [k for k in cand if k not in sel]
+                desc = bool(last[2])
+                for a in chosen:
+                    for b in rest:
+                        if (cand[a] < cand[b] - 1e-12) if desc else (cand[a] > cand[b] + 1e-12):
+                            fails.append("%s row %d: %d (stat %r) selected over %d (stat %r)" % (n.path, row, a, cand[a], b, cand[b]))
+                            break
+                nn = float.fromhex(last[1])
+                keep = int(nn) if nn >= 1 else int(nn * len(cand))
+                want = min(keep, len(cand))
+                if last[3] and len(cand) < keep:
+                    want = 0
+                if len(sel) != want:
+                    fails.append("%s row %d: SelectN kept %d of %d candidates, expected %d" % (n.path, row, len(sel), len(cand), want))
+    return fails
+
+
+def c15_weights(case, impl_case):
+    fails = []
+    state = impl_case["steps"][-1]["state"]
+    root, nodes, _ = build_tree(state)
+    if root is None:
+        return fails
+    specs = spec_index(case["tree"])
+    adata = {k: a for k, a in case.get("adata", [])}
+    dates = [case["dates"][0] - 86400] + list(case["dates"])
+    for n in walk(root):
+        sp = specs.get(n.path)
+        if n.kind != "G" or sp is None or len(sp) < 5 or "~" in n.path:
+            continue
+        fl = flat_algos(sp[4])
+        if any(a[0] in ("limitdeltas", "rebalanceovertime", "closedead", "not", "or") for a in fl):
+            continue
+        ws = [a for a in fl if a[0] in ("weighequally", "weighspecified", "weightarget", "scale", "limitweights")]
+        if not ws or ws[0][0] == "scale":
+            continue
+        for row, res, sel, w, st in node_traces(n):
+            if row is None or w is None or not res:
+                continue
+            got = dict(w)
+            base = ws[0]
+            if base[0] == "weighequally":
+                if sel is None:
+                    continue
+                exp = {k: 1.0 / len(sel) for k in sel} if sel else {}
+            elif base[0] == "weighspecified":
+                exp = {k: float.fromhex(x) for k, x in base[1]}
+            else:
+                fr = adata.get(base[1])
+                if fr is None or dates[row] not in fr[1]:
+                    continue
+                r = fr[1].index(dates[row])
+                exp = {k: float.fromhex(col[r]) for k, col in fr[2] if col[r] != "nan"}
+            skip = False
+            for a in ws[1:]:
+                if a[0] == "scale":
+                    exp = {k: float.fromhex(a[1]) * v for k, v in exp.items()}
+                elif a[0] == "limitweights":
+                    lim = float.fromhex(a[1])
+                    if not exp:
+                        pass
+                    elif lim < 1.0 / len(exp):
+                        exp = {}
+                    else:
+                        tot = sum(exp.values())
+                        if abs(round(tot, 1) - 1.0) > 1e-12:
+                            skip = True
+                        elif any(v > lim + 1e-9 for v in got.values()) or abs(sum(got.values()) - tot) > 1e-9:
+                            fails.append("%s row %d: LimitWeights(%r) gave %s from %s" % (n.path, row, lim, got, exp))
+                        skip = True
+                else:
+                    skip = True
+            if skip:
+                continue
+            if set(got) != set(exp) or any(not near(got[k], exp[k]) for k in exp):
+                fails.append("%s row %d: weights %s, documented %s" % (n.path, row, got, exp))
+    return fails
+
+
+def c06_rebalance(case, impl_case):
+    """fractional positions, no costs: after Rebalance every targeted child sits at its weight, every other child is
+    closed, the remainder is cash"""
+    fails = []
+    if case["intpos"] or case["comm"][0] != "none" or case.get("bidoffer"):
+        return fails
+    state = impl_case["steps"][-1]["state"]
+    root, nodes, _ = build_tree(state)
+    if root is None:
+        return fails
+    specs = spec_index(case["tree"])
+    for n in walk(root):
+        sp = specs.get(n.path)
+        if n.kind != "G" or sp is None or len(sp) < 5 or "~" in n.path or n.f["flags"][2] == "T":
+            continue
+        fl = flat_algos(sp[4])
+        if not fl or fl[-1][0] != "rebalance" or any(a[0] in ("rebalanceovertime", "useradjust") for a in fl):
+            continue
+        # children that trade or receive flows later on the same date change the weights again
+        if any(k.kind == "G" for k in n.kids) and any(
+                any(a[0] in ("capitalflow", "useradjust") for a in flat_algos(specs[strip_paper(k.path)][4]))
+                for k in n.kids if k.kind == "G" and len(specs.get(strip_paper(k.path), [])) > 4):
+            continue
+        vals, cash = n.vals("hg_values"), n.vals("hg_cash")
+        for row, res, sel, w, st in node_traces(n):
+            if row is None or w is None or not res or abs(vals[row]) < 1e-9:
+                continue
+            tgt = dict(w)
+            tot = 0.0
+            for k in n.kids:
+                kid = int(k.path.split(".")[-1])
+                v = k.vals("h_values")[row] if k.kind == "S" else k.vals("hg_values")[row]
+                if k.kind == "S" and k.f.get("priced", ["T"])[0] != "T":
+                    continue
+                wt = v / vals[row]
+                want = tgt.get(kid, 0.0)
+                if abs(wt - want) > 1e-9:
+                    fails.append("%s row %d: child %d sits at weight %r, target %r" % (n.path, row, kid, wt, want))
+                tot += wt
+            if abs(cash[row] / vals[row] - (1 - sum(tgt.values()))) > 1e-9 and all(
+                    any(int(k.path.split(".")[-1]) == t for k in n.kids) for t in tgt):
+                fails.append("%s row %d: cash fraction %r, expected %r" % (n.path, row, cash[row] / vals[row], 1 - sum(tgt.values())))
+    return fails
